@@ -1,5 +1,6 @@
 # M runs of the queue impl specs
 from xvlib import *
+import re, os
 
 
 def ms_consts(**kw):
@@ -18,15 +19,66 @@ def vy_consts(**kw):
 
 def nq_consts(**kw):
     c = {'MThreads': '<-Threads', 'AbsStep': '<-QStep', 'NT': 2, 'Cap': 1, 'PopRetries': 0, 'MaxNodes': 3, 'Progs': '<-ProgLost', 'SetupOps': 1,
-         'Bounded': False, 'KeepFin': True, 'SecondLook': True}
+         'Bounded': False, 'KeepFin': True, 'SecondLook': True, 'HelpTail': nikolaev_helps_tail()}
     c.update(kw)
     return c
 
 
+def rq_consts(**kw):
+    c = {'Threads': '<-ThreadsDef', 'MThreads': '<-ThreadsDef', 'Locs': '<-LocsDef', 'InitVal': '<-InitValDef', 'AbsStep': '<-QStep', 'Ord': '<-OrdCode', 'Weak': False,
+         'NT': 2, 'NNodes': 3, 'EPN': 1, 'StepSz': ramalhete_step_size(), 'PopRetries': 0, 'Progs': '<-ProgLost', 'SetupOps': 0,
+         'Invalidate': True, 'ResetPushIdx': True, 'DtorClamp': True, 'EmptyNeedsNext': True, 'HelpTail': ramalhete_helps_tail()}
+    c.update(kw)
+    return c
+
+
+def ramalhete_step_size():
+    """step_size is a private constant of ramalhete_queue: read from the tree (default 11)"""
+    try:
+        m = re.search(r'static constexpr unsigned step_size = (\d+);', open(os.path.join(REPO, 'xenium/ramalhete_queue.hpp')).read())
+        return int(m.group(1)) if m else 11
+    except Exception:
+        return 11
+
+
+def nikolaev_helps_tail():
+    """structural parameter read from the tree: does do_pop() write _tail? (the step-level binding checks the accesses themselves)"""
+    try:
+        src = open(os.path.join(REPO, 'xenium/nikolaev_queue.hpp')).read()
+        body = src[src.index('::do_pop(SuccessFunc successFunc'):]
+        return '_tail.compare_exchange' in body
+    except Exception:
+        return True
+
+
+def ramalhete_helps_tail():
+    """structural parameter of the impl spec read from the tree: does pop() touch _tail at all? (a pop that never writes _tail cannot
+       keep it from lagging behind _head; the step-level binding checks the accesses themselves)"""
+    try:
+        src = open(os.path.join(REPO, 'xenium/ramalhete_queue.hpp')).read()
+        body = src[src.index('::pop() -> std::optional'):]
+        return '_tail.compare_exchange' in body
+    except Exception:
+        return True
+
+
+def kf_consts(**kw):
+    c = {'Threads': '<-ThreadsDef', 'MThreads': '<-ThreadsDef', 'Locs': '<-LocsDef', 'InitVal': '<-InitValDef', 'AbsStep': '<-QStep', 'Ord': '<-OrdCode', 'Weak': False,
+         'NT': 2, 'K': 1, 'NSegs': 3, 'Progs': '<-ProgLost', 'SetupOps': 0, 'Committed': True, 'MarkDeleted': True, 'HeadTagBump': True, 'TailFirst': True}
+    c.update(kw)
+    return c
+
+
+KF_ACTIONS = ['StartPush', 'u_acqt', 'f_rnd', 'f_ld', 'u_ldt', 'u_cas', 'c_ld', 'c_del', 'c_ldh', 'c_bump', 'u_done', 't_ldn', 't_ldt', 't_swing', 't_alloc', 't_link', 't_swing2',
+              'StartPop', 'o_acqh', 'o_ldh', 'o_ldt', 'o_cas', 'o_ldt2', 'h_ldn', 'h_ldh', 'h_del', 'h_cas', 'Destroy', 'QueueDtor']
+INV_KF = ['Linearizable', 'Conservation', 'Ownership', 'ConservedAtEnd']
+RQ_ACTIONS = ['StartPush', 'p_acqt', 'p_faa', 'p_ldt', 'p_ldn', 'p_new', 'p_link', 'p_swing', 'p_reset', 'p_del', 'p_ldn2', 'p_help', 'p_cas', 'StartPop', 'q_acqh',
+              'q_ldpop', 'q_ldpush', 'q_ldnx0', 'q_faa', 'q_ldnx', 'q_ldt', 'q_help', 'q_cas', 'q_ldent', 'q_ldacq', 'q_xchg', 'Destroy', 'QueueDtor']
+INV_RQ = ['Linearizable', 'Conservation', 'Ownership', 'ConservedAtEnd']
 NQ_ACTIONS = ['StartPush', 'StartPop', 'e_faa', 'e_ld', 'e_chk', 'e_cas', 'e_thr', 'e_sthr', 'd_thr', 'd_faa', 'd_ld', 'd_chk', 'd_for', 'd_cas', 'd_after',
               'c_cas', 'd_fsube', 'd_fsub', 'p_tail', 'p_next', 'p_help', 'tp_deq', 'tp_enq', 'p_new', 'p_link', 'p_swing', 'q_head', 'q_deq1', 'q_thr',
-              'q_deq2', 'q_cas', 'q_take', 'q_done']
-INV_NQ = ['Linearizable', 'Conservation', 'ConservedAtEnd']
+              'q_deq2', 'q_cas', 'q_take', 'q_done', 'Destroy']
+INV_NQ = ['Linearizable', 'Conservation', 'ConservedAtEnd', 'MemorySafe']
 MS_ACTIONS = ['StartPush', 'p_init', 'p_acqt', 'p_ldn', 'p_help', 'p_link', 'p_swing', 'StartPop', 'q_acqh', 'q_acqn', 'q_ldh', 'q_null', 'q_ldt',
               'q_help', 'q_cas', 'q_data', 'Destroy']
 VY_ACTIONS = ['StartPush', 'LdTo', 'u_seq', 'u_cas', 'u_pos2', 'u_deq', 'u_data', 'u_pub', 'StartPop', 'o_seq', 'o_cas', 'o_pos2', 'o_enq', 'o_data', 'o_pub']
@@ -49,9 +101,34 @@ def run_models(ctx, pid):
             lambda: tlc_mc(ctx, 'nq_2push_2pop', 'NikolaevQueue', nq_consts(Progs='<-ProgPP', SetupOps=0), invariants=INV_NQ, view='mcview', workers=4),
             lambda: tlc_mc(ctx, 'nq_toggle_catchup_drops_finalized', 'NikolaevQueue', nq_consts(KeepFin=False), invariants=INV_NQ, view='mcview',
                            workers=4, expect='violation'),
+            lambda: tlc_mc(ctx, 'nq_lagging_tail', 'NikolaevQueue', nq_consts(Progs='<-ProgTail', SetupOps=0), invariants=INV_NQ, view='mcview', workers=4,
+                           must_cover=['q_ldt', 'q_helpt']),
+            lambda: tlc_mc(ctx, 'nq_toggle_tail_lags', 'NikolaevQueue', nq_consts(Progs='<-ProgTail', SetupOps=0, HelpTail=False), invariants=INV_NQ, view='mcview',
+                           workers=4, expect='violation'),
             lambda: tlc_mc(ctx, 'nq_toggle_no_second_look', 'NikolaevQueue', nq_consts(Progs='<-ProgPP', SetupOps=0, SecondLook=False), invariants=INV_NQ,
                            view='mcview', workers=4, expect='violation'),
         ]
+        # ramalhete_queue over the adversarial abstract reclaimer, incl. element ownership and the node / queue destructors
+        jobs += [
+            lambda: tlc_mc(ctx, 'rq_lost', 'Ramalhete', rq_consts(), invariants=INV_RQ, view='mcview', workers=6),
+            lambda: tlc_mc(ctx, 'rq_full_node', 'Ramalhete', rq_consts(Progs='<-ProgFull', NNodes=4), invariants=INV_RQ, view='mcview', workers=4),
+            lambda: tlc_mc(ctx, 'rq_epn2_retries', 'Ramalhete', rq_consts(Progs='<-ProgFull', EPN=2, PopRetries=1), invariants=INV_RQ, view='mcview', workers=4),
+            lambda: tlc_mc(ctx, 'rq_toggle_tail_lags', 'Ramalhete', rq_consts(Progs='<-ProgTail', HelpTail=False), invariants=INV_RQ, view='mcview', workers=4, expect='violation'),
+            lambda: tlc_mc(ctx, 'rq_toggle_no_invalidate', 'Ramalhete', rq_consts(Progs='<-ProgPP', Invalidate=False), invariants=INV_RQ, view='mcview', workers=4,
+                           expect='violation'),
+            lambda: tlc_mc(ctx, 'rq_toggle_empty_ignores_next', 'Ramalhete', rq_consts(Progs='<-ProgPP', EmptyNeedsNext=False), invariants=INV_RQ, view='mcview',
+                           workers=4, expect='violation'),
+            lambda: tlc_mc(ctx, 'rq_toggle_no_dtor_clamp', 'Ramalhete', rq_consts(Progs='<-ProgPP', DtorClamp=False), invariants=INV_RQ, view='mcview',
+                           workers=4, expect='violation'),
+            lambda: tlc_mc(ctx, 'rq_toggle_no_pushidx_reset', 'Ramalhete', rq_consts(Progs='<-ProgFull', ResetPushIdx=False), invariants=INV_RQ, view='mcview',
+                           workers=4, expect='violation'),
+        ]
+        if not q:
+            jobs += [lambda: tlc_mc(ctx, 'rq_mix', 'Ramalhete', rq_consts(Progs='<-ProgMix'), invariants=INV_RQ, view='mcview', workers=6, must_cover=RQ_ACTIONS),
+                     lambda: tlc_mc(ctx, 'rq_mix_epn2', 'Ramalhete', rq_consts(Progs='<-ProgMix', EPN=2), invariants=INV_RQ, view='mcview', workers=6),
+                     lambda: tlc_mc(ctx, 'rq_3t', 'Ramalhete', rq_consts(NT=3, Progs='<-Prog3', NNodes=4), invariants=INV_RQ, view='mcview', workers=12, tmo=3000, heap='24g'),
+                     lambda: tlc_mc(ctx, 'rq_3producers', 'Ramalhete', rq_consts(NT=3, Progs='<-Prog3P', NNodes=4), invariants=INV_RQ, view='mcview', workers=12, tmo=3000,
+                                    heap='24g')]
         if not q:
             jobs += [lambda: tlc_mc(ctx, 'nq_mix', 'NikolaevQueue', nq_consts(Progs='<-ProgMix', SetupOps=0), invariants=INV_NQ, view='mcview', workers=8, tmo=1500),
                      lambda: tlc_mc(ctx, 'nq_mix_cap2', 'NikolaevQueue', nq_consts(Progs='<-ProgMix', SetupOps=0, Cap=2), invariants=INV_NQ, view='mcview', workers=8, tmo=1500),
@@ -91,6 +168,24 @@ def run_models(ctx, pid):
                                     workers=12, tmo=3000, heap='24g'),
                      lambda: tlc_mc(ctx, 'vy_3laps', 'VyukovBounded', vy_consts(MaxPush=3, MaxPop=3), invariants=['Linearizable'], view='mcview',
                                     workers=12, tmo=3000, heap='24g')]
+    if pid in ('C06', 'C07'):
+        # kirsch_kfifo_queue: segments, tagged slots, `committed`, advance_head / advance_tail, segment reclamation and the destructor
+        jobs += [
+            lambda: tlc_mc(ctx, 'kf_k1_lost', 'KirschKfifo', kf_consts(), invariants=INV_KF, view='mcview', workers=4, must_cover=KF_ACTIONS),
+            lambda: tlc_mc(ctx, 'kf_k1_pp', 'KirschKfifo', kf_consts(Progs='<-ProgPP'), invariants=INV_KF, view='mcview', workers=3),
+            lambda: tlc_mc(ctx, 'kf_toggle_no_committed', 'KirschKfifo', kf_consts(Committed=False), invariants=INV_KF, view='mcview', workers=3, expect='violation'),
+            lambda: tlc_mc(ctx, 'kf_toggle_no_deleted_flag', 'KirschKfifo', kf_consts(MarkDeleted=False), invariants=INV_KF, view='mcview', workers=3, expect='violation'),
+            lambda: tlc_mc(ctx, 'kf_toggle_no_head_tag_bump', 'KirschKfifo', kf_consts(HeadTagBump=False), invariants=INV_KF, view='mcview', workers=3, expect='violation'),
+        ]
+        if pid == 'C06' or not q:
+            jobs += [lambda: tlc_mc(ctx, 'kf_k2_lost', 'KirschKfifo', kf_consts(K=2), invariants=INV_KF, view='mcview', workers=6, tmo=900)]
+        if not q:
+            jobs += [lambda: tlc_mc(ctx, 'kf_k2_mix', 'KirschKfifo', kf_consts(K=2, Progs='<-ProgMix'), invariants=INV_KF, view='mcview', workers=6, tmo=1500),
+                     lambda: tlc_mc(ctx, 'kf_k2_drain', 'KirschKfifo', kf_consts(K=2, Progs='<-ProgDrain'), invariants=INV_KF, view='mcview', workers=6, tmo=1500),
+                     lambda: tlc_mc(ctx, 'kf_k1_full', 'KirschKfifo', kf_consts(Progs='<-ProgFull', NSegs=4), invariants=INV_KF, view='mcview', workers=6, tmo=1500),
+                     lambda: tlc_mc(ctx, 'kf_k1_3t', 'KirschKfifo', kf_consts(NT=3, Progs='<-Prog3', NSegs=4), invariants=INV_KF, view='mcview', workers=12, tmo=3000, heap='24g')]
+        ctx.note('mechanism "advance_head swings a tail_ that points to the head segment first" (TailFirst = FALSE) yields no counterexample: advance_head is only '
+                 'reached with head = tail when tail_ has already moved on - not needed by any listed property')
     kinds = {'C04': [('fifo', 0, 1, 0)], 'C05': [('bounded', 2, 1, 0), ('nikbounded', 3, 1, 0)],
              'C06': [('kfifo', 0, 1, 0), ('kfifo', 0, 2, 0), ('kfifo', 0, 3, 0), ('bkfifo', 0, 2, 2), ('bkfifo', 0, 1, 1), ('bkfifo', 0, 3, 1), ('bkfifo', 0, 2, 3)],
              'C07': [('kfifo', 0, 2, 0)]}[pid]
